@@ -321,3 +321,45 @@ def stale_verdicts(fi: FuncInfo) -> Tuple[List[Tuple[ast.AST, str]], int]:
         if stale["hit"]:
             bad.append((site, matched))
     return bad, n
+
+
+def constant_verdicts(fi: FuncInfo) -> Tuple[List[ast.Assign], int]:
+    """Assignments of a *constant* to a matched flag inside an element
+    loop.  A verdict is the result of a comparison; a constant is legitimate
+    only as the reset that directly precedes an inner search loop which may
+    overwrite it ("nothing found -> no match").  A constant verdict in an
+    arm of its own decides, without comparing anything, that a whole class
+    of elements does not match -- and, inverted, that all of them do.
+
+    Returns (offending assignments, number of constant assignments seen).
+    """
+    from sa.model import ancestors, parent
+    flags = {m for _s, _t, m, _i in match_sites(fi)
+             if isinstance(m, str) and m.isidentifier()}
+    bad: List[ast.Assign] = []
+    n = 0
+    for a in walk_local(fi.node):
+        if not (isinstance(a, ast.Assign) and len(a.targets) == 1 and
+                isinstance(a.targets[0], ast.Name) and
+                a.targets[0].id in flags and
+                isinstance(a.value, ast.Constant)):
+            continue
+        if not any(isinstance(x, (ast.For, ast.While)) for x in ancestors(a)):
+            continue        # initial value before the loops
+        n += 1
+        owner = parent(a)
+        blk = None
+        for fld in ("body", "orelse", "finalbody"):
+            b = getattr(owner, fld, None)
+            if isinstance(b, list) and a in b:
+                blk = b
+        rest = blk[blk.index(a) + 1:] if blk else []
+        reset = any(
+            isinstance(st, (ast.For, ast.While)) and any(
+                isinstance(x, ast.Assign) and len(x.targets) == 1 and
+                src(x.targets[0]) == a.targets[0].id
+                for x in ast.walk(st))
+            for st in rest)
+        if not reset:
+            bad.append(a)
+    return bad, n
